@@ -324,12 +324,14 @@ func TestVerifC20RaceBodies(t *testing.T) {
 		for rep := 0; rep < reps; rep++ {
 			for _, state := range []string{"cold", "warm", "stale"} {
 				cold := state == "cold"
-				cred := vfMintRev(k, vfTag("race-secret"), []*big.Int{vfTag("r1"), vfTag("r2")}, rep)
+				// the second attribute is longer than l_m bits (it enters the signature through its hash)
+				big2 := new(big.Int).Add(vfPow2(pk.Params.Lm+200), vfInt(int64(rep)))
+				cred := vfMintRev(k, vfTag("race-secret"), []*big.Int{vfTag("r1"), big2}, rep)
 				if state == "stale" {
 					// warm cache, then the accumulator moves on and the witness is updated: the cached
 					// commitment is refreshed by whoever takes it next
 					w := c11NewWorld(k)
-					cred = w.issue(vfTag("race-secret"), []*big.Int{vfTag("r1"), vfTag("r2")}, rep)
+					cred = w.issue(vfTag("race-secret"), []*big.Int{vfTag("r1"), big2}, rep)
 					if err := cred.NonrevPrepareCache(); err != nil {
 						t.Fatal(err)
 					}
@@ -347,6 +349,10 @@ func TestVerifC20RaceBodies(t *testing.T) {
 					// object that no library function has touched yet
 					cred.Pk = vfFreshPk(k)
 				}
+				var attrsBefore []string
+				for _, a := range cred.Attributes {
+					attrsBefore = append(attrsBefore, a.String())
+				}
 				var wg sync.WaitGroup
 				start := make(chan struct{})
 				proofs := make([]*ProofD, gs)
@@ -359,7 +365,8 @@ func TestVerifC20RaceBodies(t *testing.T) {
 						if g%3 == 0 {
 							_ = cred.NonrevPrepareCache()
 						}
-						p, err := cred.CreateDisclosureProof([]int{1}, nil, true, vfContext, vfNonce)
+						// provers alternately hide and disclose the long attribute
+						p, err := cred.CreateDisclosureProof([]int{1 + g%2}, nil, true, vfContext, vfNonce)
 						if err == nil {
 							proofs[g] = p
 						}
@@ -379,6 +386,22 @@ func TestVerifC20RaceBodies(t *testing.T) {
 						continue
 					}
 					res = append(res, concProof{g, p, nil})
+				}
+				for i, a := range cred.Attributes {
+					if a.String() != attrsBefore[i] {
+						r.Violate("C20|shared-credential-changed-by-proving", fmt.Sprintf("attribute %d of the shared credential changed while proofs were made from it", i), map[string]any{"goroutines": gs, "cache": state})
+						cred.Attributes[i], _ = new(big.Int).SetString(attrsBefore[i], 10)
+					}
+				}
+				for g, p := range proofs {
+					if p == nil {
+						continue
+					}
+					for idx, v := range p.ADisclosed {
+						if v.String() != attrsBefore[idx] {
+							r.Violate("C20|concurrently-produced-proof-discloses-wrong-value", fmt.Sprintf("goroutine %d: a_disclosed[%d] is not the credential's attribute", g, idx), map[string]any{"goroutines": gs, "cache": state})
+						}
+					}
 				}
 				if sig, detail := concJudge(k, cred, res); sig != "" {
 					// the map-order ambiguity of the revocation attribute index is C11's finding
